@@ -80,11 +80,21 @@ fn gen_all(rng: &mut Rng, tier: Tier, n: usize) -> Vec<String> {
         .iter()
         .map(|(api, ctx)| format!("(bl {} send {} refill 1 1 500)", api, ctx))
         .collect();
+    v.extend(seq_cases());
     v.extend(gen_blocking(rng, tier, n, &["flush", "send"]));
     v
 }
+/// sequences of blocking flushes on one thread (see `run_seq`)
+fn seq_cases() -> Vec<String> {
+    [("sync", "plain"), ("tokio", "plain"), ("tokio", "mt"), ("tokio", "ct"), ("sync", "mt")]
+        .iter()
+        .map(|(api, ctx)| format!("(blseq {} {})", api, ctx))
+        .collect()
+}
 fn gen_flush(rng: &mut Rng, tier: Tier, n: usize) -> Vec<String> {
-    gen_blocking(rng, tier, n, &["flush"])
+    let mut v = seq_cases();
+    v.extend(gen_blocking(rng, tier, n, &["flush"]));
+    v
 }
 fn gen_send(rng: &mut Rng, tier: Tier, n: usize) -> Vec<String> {
     gen_blocking(rng, tier, n, &["send"])
@@ -227,7 +237,164 @@ fn send_out(r: Result<(), BatchError<u64>>) -> Out {
     }
 }
 
+/// `(blseq API CTX)`: a SEQUENCE of blocking flushes on ONE thread against a hand-driven receiver (deterministic
+/// order): item 1 in flight, item 2 queued; flush #1 (50 ms) must time out → false; the receiver completes [1] and
+/// takes [2] (with flush #1's watcher); item 3 is sent; flush #2 (3 s) starts; 100 ms later the receiver completes
+/// [2] — the watcher of the EARLIER, timed-out flush runs now — and takes [3]; another 100 ms later it completes
+/// [3] and flush #2's own watcher runs. Flush #2 may return `true` only then: everything accepted before it was
+/// requested has been processed. output: `false,true`; oracle c07-blocking-true.
+fn run_seq(line: &str) -> Option<String> {
+    use std::sync::atomic::{AtomicUsize, Ordering};
+    use std::sync::{mpsc, Mutex};
+    let s = Sexp::parse(line)?;
+    let (tag, a) = s.as_tagged()?;
+    if tag != "blseq" || a.len() != 2 {
+        return None;
+    }
+    let api = match a[0].as_atom()? {
+        "sync" => Api::Sync,
+        "tokio" => Api::Tokio,
+        _ => return None,
+    };
+    let ctx = match a[1].as_atom()? {
+        "plain" => Ctx::Plain,
+        "mt" => Ctx::Mt,
+        "ct" => Ctx::Ct,
+        _ => return None,
+    };
+    let (sender, receiver): (Sender<Vec<u64>>, Receiver<Vec<u64>>) = emit_batcher::bounded(8);
+    let sender = Arc::new(sender);
+    let processed: Arc<Mutex<Vec<u64>>> = Arc::new(Mutex::new(Vec::new()));
+    let released = Arc::new(AtomicUsize::new(0));
+    // a batch is processed when the gate of its on_batch future opens
+    struct Gate {
+        idx: usize,
+        released: Arc<AtomicUsize>,
+        batch: Vec<u64>,
+        processed: Arc<Mutex<Vec<u64>>>,
+    }
+    impl std::future::Future for Gate {
+        type Output = Result<(), BatchError<Vec<u64>>>;
+        fn poll(self: std::pin::Pin<&mut Self>, _: &mut std::task::Context<'_>) -> std::task::Poll<Self::Output> {
+            if self.released.load(Ordering::SeqCst) > self.idx {
+                self.processed.lock().unwrap().extend(self.batch.iter().copied());
+                std::task::Poll::Ready(Ok(()))
+            } else {
+                std::task::Poll::Pending
+            }
+        }
+    }
+    enum Cmd {
+        Poll,
+        ReleaseAndPoll,
+        /// 100 ms, release + poll, 100 ms, release + poll
+        Timeline,
+        Stop,
+    }
+    let (cmd_tx, cmd_rx) = mpsc::channel::<Cmd>();
+    let (ack_tx, ack_rx) = mpsc::channel::<()>();
+    let helper = {
+        let (processed, released) = (processed.clone(), released.clone());
+        std::thread::spawn(move || {
+            let ncalls = std::cell::Cell::new(0usize);
+            let mut fut = Box::pin(receiver.exec(
+                |_d| std::future::pending::<()>(),
+                |batch: Vec<u64>| {
+                    let idx = ncalls.get();
+                    ncalls.set(idx + 1);
+                    Gate { idx, released: released.clone(), batch, processed: processed.clone() }
+                },
+            ));
+            fn poll<F: std::future::Future>(fut: &mut std::pin::Pin<Box<F>>) {
+                let mut cx = std::task::Context::from_waker(std::task::Waker::noop());
+                let _ = fut.as_mut().poll(&mut cx);
+            }
+            while let Ok(cmd) = cmd_rx.recv() {
+                match cmd {
+                    Cmd::Poll => poll(&mut fut),
+                    Cmd::ReleaseAndPoll => {
+                        released.fetch_add(1, Ordering::SeqCst);
+                        poll(&mut fut);
+                    }
+                    Cmd::Timeline => {
+                        let _ = ack_tx.send(());
+                        for _ in 0..2 {
+                            std::thread::sleep(Duration::from_millis(100));
+                            released.fetch_add(1, Ordering::SeqCst);
+                            poll(&mut fut);
+                        }
+                        continue;
+                    }
+                    Cmd::Stop => break,
+                }
+                let _ = ack_tx.send(());
+            }
+            drop(fut);
+        })
+    };
+    let flush = move |sender: &Sender<Vec<u64>>, t: Duration| match api {
+        Api::Sync => emit_batcher::sync::blocking_flush(sender, t),
+        _ => emit_batcher::tokio::blocking_flush(sender, t),
+    };
+    let script = {
+        let (sender, processed) = (sender.clone(), processed.clone());
+        move || -> (bool, bool, Vec<u64>) {
+            let step = |c: Cmd| {
+                let _ = cmd_tx.send(c);
+                let _ = ack_rx.recv();
+            };
+            sender.send(1);
+            step(Cmd::Poll); // the receiver holds [1]
+            sender.send(2);
+            let f1 = flush(&sender, Duration::from_millis(50));
+            step(Cmd::ReleaseAndPoll); // [1] done; [2] taken together with flush #1's watcher
+            sender.send(3);
+            step(Cmd::Timeline);
+            let f2 = flush(&sender, Duration::from_secs(3));
+            let seen = processed.lock().unwrap().clone();
+            let _ = cmd_tx.send(Cmd::Stop);
+            (f1, f2, seen)
+        }
+    };
+    let res: Option<(bool, bool, Vec<u64>)> = match ctx {
+        Ctx::Plain => std::thread::spawn(move || hcommon::catch(script)).join().ok().flatten(),
+        Ctx::Mt => {
+            let rt = tokio::runtime::Builder::new_multi_thread().worker_threads(2).enable_all().build().unwrap();
+            let r = rt.block_on(async move { tokio::spawn(async move { script() }).await });
+            rt.shutdown_background();
+            r.ok()
+        }
+        _ => {
+            let rt = tokio::runtime::Builder::new_current_thread().enable_all().build().unwrap();
+            hcommon::catch(|| rt.block_on(async move { script() }))
+        }
+    };
+    let _ = helper.join();
+    Some(match res {
+        None => "panic\tFAIL:c08-panic".into(),
+        Some((f1, f2, seen)) => {
+            let mut out = format!("{},{}", f1, f2);
+            let mut fails = Vec::new();
+            if f1 {
+                fails.push("c07-blocking-true"); // [1] was still in flight and 2 queued
+            }
+            if f2 && !(seen.contains(&1) && seen.contains(&2) && seen.contains(&3)) {
+                fails.push("c07-blocking-true");
+            }
+            if !fails.is_empty() {
+                fails.dedup();
+                out.push_str("\tFAIL:");
+                out.push_str(&fails.join("+"));
+            }
+            out
+        }
+    })
+}
+
 fn run_blocking(line: &str) -> String {
+    if line.starts_with("(blseq") {
+        return run_seq(line).unwrap_or_else(|| "bad-case".into());
+    }
     let Some(c) = parse(line) else {
         return "bad-case".into();
     };
